@@ -80,4 +80,29 @@ fn main() {
     c!("MAX_VERIFIER_ARTIFACT_BYTES", wormhole_verifier::MAX_VERIFIER_ARTIFACT_BYTES);
     c!("DIGEST_LOGS_SIZE", wormhole_circuit::block_header::header::DIGEST_LOGS_SIZE);
     c!("FIELD_ORDER", <plonky2::field::goldilocks_field::GoldilocksField as plonky2::field::types::Field64>::ORDER);
+    // encoding group (C25 / C26)
+    c!("AMOUNT_QUANTIZATION_FACTOR", cm::serialization::AMOUNT_QUANTIZATION_FACTOR);
+    c!("FELTS_PER_U64", cm::serialization::FELTS_PER_U64);
+    c!("FELTS_PER_U128", cm::serialization::FELTS_PER_U128);
+    c!("POSEIDON2_OUTPUT", cm::serialization::POSEIDON2_OUTPUT);
+    c!("POSEIDON_CORE_P", qp_poseidon_core::goldilocks::P);
+    c!("MERKLE_CHILDREN_BYTES", cm::zk_merkle::CHILDREN_BYTES);
+    // config group (C28): field values of the canonical circuit configs
+    for (pfx, cfg) in [
+        ("CFG_STD", plonky2::plonk::circuit_data::CircuitConfig::standard_recursion_config()),
+        ("CFG_STDZK", plonky2::plonk::circuit_data::CircuitConfig::standard_recursion_zk_config()),
+        ("CFG_LEAF", cm::circuit::wormhole_leaf_circuit_config()),
+        ("CFG_PRIV", cm::circuit::wormhole_private_batch_circuit_config()),
+        ("CFG_PUB", cm::circuit::wormhole_public_batch_circuit_config()),
+    ] {
+        c!(format!("{pfx}_NUM_WIRES"), cfg.num_wires);
+        c!(format!("{pfx}_NUM_ROUTED_WIRES"), cfg.num_routed_wires);
+        c!(format!("{pfx}_SECURITY_BITS"), cfg.security_bits);
+        c!(format!("{pfx}_NUM_CHALLENGES"), cfg.num_challenges);
+        c!(format!("{pfx}_ZERO_KNOWLEDGE"), cfg.zero_knowledge);
+        c!(format!("{pfx}_MAX_QUOTIENT_DEGREE_FACTOR"), cfg.max_quotient_degree_factor);
+        c!(format!("{pfx}_RATE_BITS"), cfg.fri_config.rate_bits);
+        c!(format!("{pfx}_CAP_HEIGHT"), cfg.fri_config.cap_height);
+        c!(format!("{pfx}_NUM_QUERY_ROUNDS"), cfg.fri_config.num_query_rounds);
+    }
 }
